@@ -38,6 +38,11 @@ def gen(rng, count, tier):
                 params['worker_lifespan'] = rng.choice([1, 2, 3, 7])
             call = {'kind': rng.choice(['map', 'map_unordered', 'imap', 'imap_unordered']), 'n': n, 'input': 'list',
                     'elem': 'scalar', 'params': params, 'base': 1000 * (j + 1), 'init': has_init, 'exit': has_exit}
+            # generous init / exit timeouts (never exceeded): the timeout-guarded init / exit paths are separate branches
+            if has_init and rng.random() < 0.5:
+                params['worker_init_timeout'] = 30
+            if has_exit and rng.random() < 0.5:
+                params['worker_exit_timeout'] = 30
             if j > 0 and rng.random() < 0.4:
                 call['func'] = 'task_big'       # another function: new map params are shipped to kept-alive workers
             if not keep:
